@@ -671,6 +671,18 @@ Definition pep_obs (po : option peptide) : list Z :=
       match p_canary p with Some a => 1 :: q_obs a | None => [0; 0; 1] end
   end.
 
+(* what a successful training shows besides its result: the violations the freshly
+   learned baseline finds in the very window it was learned from (marker 88, count,
+   codes).  The window may be on any scale — confidences as percentages or
+   log-probabilities, latencies in milliseconds or (clock skew) negative: the
+   features are arbitrary rationals, nothing is clamped to a "physical" range. *)
+Definition trained_obs (s' : sys) (o : op) (out : outcome) : list Z :=
+  match o, out, s_tcell s' with
+  | OTrain (Some p), OutTrain Positive, Some t =>
+      let v := check (t_prof t) p in 88 :: Z.of_nat (length v) :: v
+  | _, _, _ => []
+  end.
+
 (* one row per system-level operation; inspections / trainings through the
    display also show the fingerprint that was used *)
 Fixpoint obs_run (pf : list Z -> list bool -> peptide) (legacy : bool) (g : cfg)
@@ -687,7 +699,7 @@ Fixpoint obs_run (pf : list Z -> list bool -> peptide) (legacy : bool) (g : cfg)
                     | _, OutRaise => [66; -5]     (* untrained: no fingerprint is generated *)
                     | _, _ => 66 :: pep_obs (fingerprint pf d)
                     end in
-          (op_code o :: outcome_obs out ++ fp ++ 77 :: state_obs s') :: obs_run pf legacy g d s' rest
+          (op_code o :: outcome_obs out ++ trained_obs s' o out ++ fp ++ 77 :: state_obs s') :: obs_run pf legacy g d s' rest
       end
   end.
 
